@@ -364,6 +364,9 @@ func main() {
 	chCodec := vh.NewChannel("qpr.codec", "QPR -> JSON -> zstd -> JSON -> QPR (per-fraction result file) vs SV.Async.roundtrip (AggBin key 'mid|token' codec); non-trivial = has an aggregation bin")
 	chFetch := vh.NewChannel("async.fetch", "AsyncSearcher.FetchSearchResult over crafted result files vs SV.Async.fetchFold (MergeQPRs(.., MaxInt, 1, order) per file); non-trivial = an ID occurs in two files")
 	chParams = vh.NewChannel("async.params", "the parameters GrpcV1.StartAsyncSearch(request) persists (<id>.info: From, To, Limit, HistInterval, WithTotal, Order, retention, expiry) vs SV.Async.asyncParams, requests at the integer edges; an undeclared Order panics")
+	chPF := vh.NewChannel("proxy.async.fetch", "real search.Ingestor.FetchAsyncSearchResult over scripted stores (NotFound / Unavailable / other error / answer with done flag per replica) vs SV.ProxyAsync.proxyFetch; non-trivial = >1 shard answering")
+	chPS := vh.NewChannel("proxy.async.start", "real search.Ingestor.StartAsyncSearch over scripted stores: replicas called and success vs SV.ProxyAsync.proxyStart")
+	orcPD := vh.NewOracle("proxy.async.done", "every shard has one replica that accepted the search: an answer exists only if every such replica answered, Done only if all are done, and every shard's IDs are in the merged result; non-trivial = a shard's replica is unreachable")
 	orcSys := vh.NewOracle("async.system", "real FracManager+AsyncSearcher, process killed after the k-th atomic write and restarted: fetched result == synchronous SearchDocs (ids, histogram, aggregations); non-trivial = a crash point inside the run and >1 fraction")
 
 	var sysLines []string
@@ -379,6 +382,10 @@ func main() {
 				chCodec.Add(l, runCodec(l), true, "replay")
 			case "fetch":
 				chFetch.Add(l, runFetch(l), true, "replay")
+			case "pfetch":
+				chPF.Add(l, runPFetch(l), true, "replay")
+			case "pstart":
+				chPS.Add(l, runPStart(l), true, "replay")
 			case "async", "asyncconc", "asyncapi":
 				sysLines = append(sysLines, l)
 			}
@@ -411,12 +418,16 @@ func main() {
 			}
 			chFetch.Add(line, runFetch(line), dup, fmt.Sprintf("histMode=%d", histMode), "dup="+b(dup), fmt.Sprintf("files=%d", len(qs)))
 		}
+		genProxyAsync(gen{vh.NewRNG(o.Seed + 99)}, chPF, chPS, orcPD, rep, o.Pick(400, 5000))
 		sysLines = genSys(g, o)
 	}
 	runSys(sysLines, orcSys, rep, o)
 	rep.AddChannel(chCodec, o.Driver)
 	rep.AddChannel(chFetch, o.Driver)
 	rep.AddChannel(chParams, o.Driver)
+	rep.AddChannel(chPF, o.Driver)
+	rep.AddChannel(chPS, o.Driver)
+	rep.AddOracle(orcPD)
 	rep.AddOracle(orcSys)
 	rep.Write(o.Out)
 }
@@ -466,6 +477,9 @@ func docTokens(d sdoc) ([]byte, []seq.Token) {
 	if d.uri > 0 {
 		body += fmt.Sprintf(`,"request_uri":%q`, uris[d.uri%len(uris)])
 	}
+	// a keyword field whose values contain the AggBin key separator and other separators
+	pods := []string{"api|v1", "api|v2", "api", "|", "a|b|c", "x;y", "x:y", "api|", "plain"}
+	body += fmt.Sprintf(`,"k8s_pod":%q`, pods[(d.msg*5+d.uri+int(d.id.RID))%len(pods)])
 	body += "}"
 	metas, err := bulk.VerifIndexDoc(seq.TestMapping, consts.DefaultMaxTokenSize, false, false, []byte(body))
 	if err != nil || len(metas) == 0 {
@@ -510,6 +524,8 @@ func aggQuery(kind string) []processor.AggQuery {
 	switch kind {
 	case "count":
 		return []processor.AggQuery{{GroupBy: &parser.Literal{Field: "service", Terms: all}, Func: seq.AggFuncCount}}
+	case "pods":
+		return []processor.AggQuery{{GroupBy: &parser.Literal{Field: "k8s_pod", Terms: all}, Func: seq.AggFuncCount}}
 	case "sum":
 		return []processor.AggQuery{{GroupBy: &parser.Literal{Field: "service", Terms: all}, Field: &parser.Literal{Field: "request_duration", Terms: all}, Func: seq.AggFuncSum}}
 	}
@@ -1150,7 +1166,7 @@ func genSys(g gen, o vh.Opts) []string {
 		}
 		lines = append(lines, fmt.Sprintf("async docs=%s layout=%s lastActive=%s late=%s qx=%s desc=%s hi=%d agg=%s from=%d to=%d crash=%d at=%s",
 			strings.Join(docs, ","), strings.Join(lay, ";"), b(g.r.Bool()), late, vh.Hex([]byte(query)), b(g.r.Bool()),
-			[]int{0, 1, 7}[g.r.Intn(3)], []string{"none", "count", "sum"}[g.r.Intn(3)], from, to, crash, []string{"written", "before-rename"}[g.r.Intn(2)]))
+			[]int{0, 1, 7}[g.r.Intn(3)], []string{"none", "count", "sum", "pods", "pods"}[g.r.Intn(5)], from, to, crash, []string{"written", "before-rename"}[g.r.Intn(2)]))
 	}
 	return lines
 }
